@@ -34,14 +34,19 @@ TOL = 1e-8          # parameter stream and the oracle (norm-wise)
 # cond(C) <= 1e8 and 3e-10 at 1e9; histories are cut once cond(C) > 1e8.  A wrong coefficient changes
 # the result by 1e-2 or more.
 TOL_RUN = 1e-6
-RULE = ("params: dims 2..8 (thorough 2..20) x lambda 4..14 x mu {default, 1, lambda/3, lambda} x 3 schemes, plus "
+RULE = ("fixed case list per (tier, seed): 18 structured + 1800 (thorough up to 6000, cut deterministically by a 1.5 GB protocol-volume cap) random histories, the parameter sweep "
+        "+ 150 (1500) random rate sets, 60 (600) sorts; QUICK EXPLORES DIMENSIONS 2..8 ONLY, 9..20 are thorough-only. "
+        "params: dims 2..8 (thorough 2..20) x lambda 4..14 x mu {default, 1, lambda/3, lambda} x 3 schemes, plus "
         "random user-supplied rates; runs: random (dim, lambda>=4, mu<=lambda, scheme, default or user-supplied "
         "cs/damps/ccum/ccov1/ccovmu, centroid, sigma, identity/diagonal/random SPD cmatrix with cond 1e1..1e5) "
-        "on sphere/rosenbrock/linear/ellipsoid/step(ties)/two-objective fitnesses for 1..50 generations, "
+        "on sphere/rosenbrock/linear/ellipsoid/step(ties)/const/two-objective fitnesses for 1..50 generations "
+        "(generations with tied fitnesses and the four runs with cs in {0, 2} are compared with the model only), "
         "list and ndarray individuals, minimising and maximising weights. "
         "Non-trivial = distinct history (or parameter set); every run updates at least once.")
 EXHAUSTIVE = {"quick": False, "thorough": False}
-TIME_BUDGET = {"quick": 28, "thorough": 600}
+TIME_BUDGET = {"quick": 150, "thorough": 2400}     # measured need: ~20 s / ~300 s
+MIN_CASES = 1500
+CASE_TIMEOUT = 60
 TRUSTED = ["numpy.linalg.eigh (LAPACK) — a parameter of the model with the contract V^T V = I, C = V diag(w) V^T; "
            "the contract is checked numerically on every answer numpy gives during the runs",
            "numpy.random.standard_normal — the distributional claim 'N(0, sigma^2 C)' rests on numpy's sampler; the "
@@ -51,6 +56,10 @@ TRUSTED = ["numpy.linalg.eigh (LAPACK) — a parameter of the model with the con
            "numpy.argsort — any permutation sorting the eigenvalues (checked by the model on every answer)"]
 ASSUMPTIONS = ["finite inputs, sigma > 0, symmetric positive definite cmatrix, fitness values without NaN",
                "mu >= 1 and mu <= lambda = len(population) (numpy raises otherwise)",
+               "well-posedness guard of the equation theorems (structure WellPosed): sigma > 0, 0 < cs < 2, damps != 0, "
+               "diagD > 0 — outside it numpy divides by zero (inf/nan) while division over the reals is totalised",
+               "which individuals are 'the mu best' is determined only for pairwise distinct fitnesses; with ties the "
+               "code's stable order is compared with the model, not demanded by the oracle",
                "theorems are over the reals: rounding, overflow and underflow of binary64 are not modelled",
                "the eigenvalues LAPACK returns for the updated C are positive (over the reals they are >= 0 because the "
                "update keeps C positive semi-definite — theorem update_psd; a history whose C becomes numerically "
@@ -449,13 +458,18 @@ def eval_run(d):
     Ind = ArrInd if d.get("ind") == "ndarray" else ListInd
     prng = random.Random(d["zseed"] ^ 0x5bd1e995)
     ties_seen = False
+    # user-supplied cs outside (0, 2): the h_sigma denominator sqrt(1 - (1-cs)^(2(g+1))) is 0, numpy yields
+    # inf/nan there; outside the guard `WellPosed` of the theorems -> model comparison only, no equations oracle
+    degenerate = not (0.0 < float(st.cs) < 2.0) or float(st.damps) == 0.0
+    if degenerate:
+        tags.append("degenerate-cs")
     for g in range(d["ngen"]):
         pre = snapshot(st)
         with tapemod.Tape(rng=random.Random(d["zseed"] * 1000 + g), numpy_too=True) as tp:
             pop = st.generate(Ind)
         draws = [x for x in tp.draws if x[0] == "np.standard_normal"]
         if len(draws) != 1 or draws[0][1] != [st.lambda_, n]:
-            fail("generate drew %r instead of one (lambda_, dim) standard-normal block" % (
+            fail("TAPE: generate drew %r instead of one (lambda_, dim) standard-normal block" % (
                 [(x[0], x[1]) for x in tp.draws],), g)
             break
         arz = numpy.array(draws[0][2], dtype=float).reshape(st.lambda_, n)
@@ -472,8 +486,12 @@ def eval_run(d):
         got = numpy.array([[float(v) for v in x] for x in pop])
         if not close(got, want):
             fail("generate: individuals differ from centroid + sigma B D z", g)
-        lines.append("C13 generate %d %s %s %s %s" % (n, fv(pre["centroid"]), fbits(pre["sigma"]), fm(pre["BD"]), fm(arz)))
-        expect.append("%d %s" % (len(pop), nmat(got)))
+        # the model consumes exactly lambda_*dim draws of a flat tape; `extra` further draws must be left over
+        extra = (d["zseed"] + g) % 4
+        flat = list(draws[0][2]) + [0.5 * (j + 1) for j in range(extra)]
+        lines.append("C13 generate %d %d %s %s %s %s" % (n, st.lambda_, fv(pre["centroid"]), fbits(pre["sigma"]),
+                                                        fm(pre["BD"]), fv(flat)))
+        expect.append("%d %d %s" % (len(pop), extra, nmat(got)))
         # evaluate
         for x in pop:
             x.fitness = F(f(numpy.array([float(v) for v in x])))
@@ -495,7 +513,8 @@ def eval_run(d):
                     q.reverse()
                 twins.append((kind, copy.deepcopy(st), q))
         # the real update
-        st.update(pop)
+        with numpy.errstate(all="ignore"):
+            st.update(pop)
         post = snapshot(st)
         if not (numpy.all(numpy.isfinite(post["C"])) and math.isfinite(post["sigma"])
                 and numpy.all(numpy.isfinite(post["centroid"]))):
@@ -512,7 +531,8 @@ def eval_run(d):
             tags.append("indefinite")
             break
         for kind, st2, q in twins:
-            st2.update(q)
+            with numpy.errstate(all="ignore"):
+                st2.update(q)
             df = states_identical(st, st2)
             if df is not None:
                 fail("order dependence: %s differs after updating with the %s population" % (
@@ -525,7 +545,19 @@ def eval_run(d):
         expect.append(" ".join([nvec(post["centroid"]), nvec(post["ps"]), nvec(post["pc"]), nmat(post["C"]),
                                 fbits(post["sigma"]), str(post["count"]), nvec(post["diagD"]), nmat(post["B"]),
                                 nmat(post["BD"]), fbits(post["cond"]), "1"]))
-        # published equations on the mu best (stable order among equal fitnesses)
+        # published equations on the mu best.  Which individuals are "the mu best" is only determined when the
+        # fitnesses are pairwise distinct (the statement says nothing about the order among equal fitnesses):
+        # with ties, and outside the guard, only the model comparison above applies.
+        if not distinct or degenerate:
+            e = check_consistency(st)
+            if e:
+                fail(e, g)
+            if post["cond"] > 1e8 or post["sigma"] > 1e100 or post["sigma"] < 1e-100:
+                tags.append("stopped-illconditioned")
+                break
+            if orc is not None:
+                break
+            continue
         order = sorted(range(len(given)), key=lambda i: wv[i], reverse=True)
         xs = got[order[:pre["mu"]]]
         pub = published_update(pre, xs)
@@ -560,8 +592,8 @@ def eval_run(d):
     over = "user" if d.get("over") else "default"
     tag = "run/%s/%s/%s/%s%s" % (d.get("scheme") or "superlinear(default)", d["obj"], over, d.get("cm", "id"),
                                  "/ties" if ties_seen else "")
-    if tags:
-        tag += "/" + tags[0]
+    for t in sorted(set(tags)):
+        tag += "/" + t
     return Case(d, lines, expect, orc, tag=tag, tol=TOL_RUN)
 
 
@@ -635,30 +667,18 @@ def rand_run(rng, maxdim, long_ok=True):
     return d
 
 
+N_RUNS = {"quick": 1800, "thorough": 6000}
+N_PARAMS = {"quick": 150, "thorough": 1500}
+N_SORT = {"quick": 60, "thorough": 600}
+
+
 def generate(tier, rng, mult):
+    """The case list is a function of (tier, seed, mult) only — fixed counts, never cut by the clock in normal
+    operation (TIME_BUDGET is several times the measured need; a truncated run prints TRUNCATED and is an
+    infrastructure error below MIN_CASES).  Streams that carry whole clauses of the property come first."""
     thorough = tier == "thorough"
-    maxdim = 20 if thorough else 8
-    # -- computeParams: structured sweep ---------------------------------------------------
-    dims = range(2, maxdim + 1) if not thorough else list(range(2, 13)) + [16, 20]
-    for n in dims:
-        for lam in ((4, 5, 6, 7, 9, 12, 14) if not thorough else range(4, 31)):
-            for mu in [None] + sorted(set([1, max(1, lam // 3), lam])):
-                for scheme in SCHEMES:
-                    yield {"k": "params", "dim": n, "lam": lam, "mu": mu, "scheme": scheme, "over": {}}
-    for scheme in ("cubic", "", "Linear"):
-        yield {"k": "params", "dim": 3, "lam": 6, "mu": None, "scheme": scheme, "over": {}}
-    for _ in range((150 if not thorough else 1500) * mult):
-        n = rng.randint(2, maxdim)
-        lam = rng.randint(4, 40)
-        yield {"k": "params", "dim": n, "lam": lam, "mu": rng.choice([None, rng.randint(1, lam)]),
-               "scheme": rng.choice(SCHEMES), "over": rand_over(rng, n, 0.6)}
-    # -- sort --------------------------------------------------------------------------------
-    for _ in range((60 if not thorough else 600) * mult):
-        m = rng.randint(0, 9)
-        two = rng.random() < 0.4
-        keys = [[float(rng.randint(0, 3))] + ([float(rng.randint(0, 2))] if two else []) for _ in range(m)]
-        yield {"k": "sort", "keys": keys, "fw": rng.choice([[-1.0, 1.0], [1.0, 1.0]]) if two else rng.choice([[-1.0], [1.0], [2.0]])}
-    # -- histories: one of every (scheme, objective) first, then random ----------------------
+    maxdim = 20 if thorough else 8            # quick explores dimensions 2..8 only; 9..20 are thorough-only
+    # -- histories: one of every (scheme, objective) first ------------------------------------
     for scheme in SCHEMES:
         for obj in ("sphere", "rosenbrock", "linear", "step"):
             d = rand_run(rng, maxdim, long_ok=False)
@@ -670,16 +690,44 @@ def generate(tier, rng, mult):
     d = rand_run(rng, maxdim)
     d.update({"ngen": 50, "obj": "linear", "fw": [-1.0], "cm": "spd3"})
     yield d
-    # random histories until the time budget cuts; the protocol volume is capped (all lines are held in
-    # memory and piped to the driver at once): about 22 bytes per float token
-    cap = (1500e6 if thorough else 250e6) * mult
+    # outside the guard 0 < cs < 2 (flagged `degenerate-cs`, model comparison only)
+    for cs in (0.0, 2.0, 0.0, 2.0):
+        d = rand_run(rng, maxdim, long_ok=False)
+        d["over"] = dict(d.get("over") or {}, cs=cs)
+        d["ngen"] = min(d["ngen"], 3)
+        yield d
+    # -- random histories (fixed count; the protocol volume cap is a deterministic safety net: all lines are
+    #    held in memory and piped to the driver at once, about 22 bytes per float token) -------
+    cap = 1500e6 * mult
     vol = 0.0
-    while vol < cap:
+    for _ in range(N_RUNS[tier] * mult):
         d = rand_run(rng, maxdim)
         n = d["dim"]
         lam = d["lam"] if d["lam"] is not None else int(4 + 3 * math.log(n))
         vol += 22.0 * d["ngen"] * (6 * n * n + 3 * lam * n + 10 * n)
+        if vol > cap:
+            break
         yield d
+    # -- computeParams: structured sweep, then random user-supplied rates ---------------------
+    dims = range(2, maxdim + 1) if not thorough else list(range(2, 13)) + [16, 20]
+    for n in dims:
+        for lam in ((4, 5, 6, 7, 9, 12, 14) if not thorough else range(4, 31)):
+            for mu in [None] + sorted(set([1, max(1, lam // 3), lam])):
+                for scheme in SCHEMES:
+                    yield {"k": "params", "dim": n, "lam": lam, "mu": mu, "scheme": scheme, "over": {}}
+    for scheme in ("cubic", "", "Linear"):
+        yield {"k": "params", "dim": 3, "lam": 6, "mu": None, "scheme": scheme, "over": {}}
+    for _ in range(N_PARAMS[tier] * mult):
+        n = rng.randint(2, maxdim)
+        lam = rng.randint(4, 40)
+        yield {"k": "params", "dim": n, "lam": lam, "mu": rng.choice([None, rng.randint(1, lam)]),
+               "scheme": rng.choice(SCHEMES), "over": rand_over(rng, n, 0.6)}
+    # -- sort --------------------------------------------------------------------------------
+    for _ in range(N_SORT[tier] * mult):
+        m = rng.randint(0, 9)
+        two = rng.random() < 0.4
+        keys = [[float(rng.randint(0, 3))] + ([float(rng.randint(0, 2))] if two else []) for _ in range(m)]
+        yield {"k": "sort", "keys": keys, "fw": rng.choice([[-1.0, 1.0], [1.0, 1.0]]) if two else rng.choice([[-1.0], [1.0], [2.0]])}
 
 
 # ----------------------------------------------------------------------------------------
